@@ -18,43 +18,49 @@ INB = "mqtt_client::InboundPublish"
 
 
 def first_of(f, name, variant):
+    """(function, fresh iteration?, yields exactly the first Ok(variant) payload?) -- read as a loop over self.iter()
+    (`find_map(..)` stands for that loop): Some(x) is returned only with x = payload of an Ok(Property::<variant>) element,
+    the search stops there, and None is returned only when the iteration is exhausted"""
+    from .. import paths
     b = roles.method(f, PROPS, name)
-    t = peel(b.local_term(0))
-    ok = is_call(t, "Iterator::find_map") and len(t[3]) == 2
-    fresh = ok and any(is_call(x, "iter") and x[3] and chain(x[3][0])[0] == ("param", "self") for x in walk(t[3][0]) if x[0] == "call")
-    envs = dict((cb.name, env) for cb, env in roles.closure_envs(f, b))
-
-    def selector(cb, want):
-        """closure cb maps an entry to Some(payload at chain `want` from its parameter) and to None otherwise"""
-        alts = phi_alts(cb.local_term(0))
-        some = [a for a in alts if a[0] == "agg" and a[3] == "Some"]
-        none = [a for a in alts if a[0] == "agg" and a[3] == "None"]
-        if len(some) == 1 and len(none) >= 1 and len(some) + len(none) == len(alts):
-            r, n = chain(some[0][5][0])
-            return r == ("param", cb.param_name(2)) and n == want
-        return False
-    okc = False
-    fm = None
-    if ok:
-        # the closure handed to find_map
-        for x in walk(t[3][1]):
-            if x[0] == "agg" and x[1] == "closure" and x[2] in f.bodies:
-                fm = f.bodies[x[2]]
-                break
-    if fm is not None and fm.arg_count >= 2:
-        if selector(fm, ["@Ok", "0", "@" + variant, "0"]):
-            okc = True
-        else:
-            # entry.ok().and_then(select): failed entries are skipped, decoded ones go through `select`
-            r = peel(fm.local_term(0))
-            if is_call(r, "Option::<T>::and_then") and len(r[3]) == 2 and is_call(peel(r[3][0]), "Result::<T, E>::ok") \
-                    and peel(peel(r[3][0])[3][0]) == ("param", fm.param_name(2)):
-                from ..core import subst as _subst
-                sel = _subst(r[3][1], envs.get(fm.name, {}))
-                for x in walk(sel):
-                    if x[0] == "agg" and x[1] == "closure" and x[2] in f.bodies:
-                        okc = selector(f.bodies[x[2]], ["@" + variant, "0"])
-    return b, ok and fresh, okc
+    nexts = [c for c in b.calls.values() if c.bb in b.reachable and c.is_("core::iter::Iterator::next")]
+    if len(nexts) != 1:
+        return b, False, False
+    nx = nexts[0]
+    fresh = any(is_call(x, "iter") and x[3] and chain(x[3][0])[0] == ("param", "self") for x in walk(b.operand_term(nx.args[0])) if x[0] == "call")
+    sw = None
+    for bb in b.switches:
+        si = b.switch_info(bb)
+        if si["enum"] == "core::option::Option" and any(a[0] == "call" and a[1] == nx.bb for a in phi_alts(peel(si["subject"]))):
+            sw = si
+    if sw is None or sw["edges"].get("None") is None:
+        return b, fresh, False
+    okc = True
+    somes = 0
+    for lf in paths.explore(b, 0, lambda t: False, lambda bd, x: False):
+        if lf["kind"] == "limit":
+            return b, fresh, False
+        if lf["kind"] != "return":
+            continue
+        v = paths.value_on_path(b, lf["path"], 0)
+        p_ = lf["path"]
+        exhausted = any(p_[i] == sw["bb"] and p_[i + 1] == sw["edges"]["None"] for i in range(len(p_) - 1))
+        alts = phi_alts(v) if v is not None else []
+        for a in alts:
+            if a[0] == "agg" and a[3] == "Some" and a[5]:
+                r, n = chain(a[5][0])
+                if r[0] == "call" and r[1] == nx.bb and n == ["@Some", "0", "@Ok", "0", "@" + variant, "0"] and not exhausted:
+                    somes += 1
+                    continue
+                okc = False
+            elif a[0] == "agg" and a[3] == "None":
+                # nothing found: only once every element has been looked at -- unless this is the closure's own
+                # "not this one" value travelling with a Some (flow-insensitive alternative of the same local)
+                if not exhausted and len(alts) == 1:
+                    okc = False
+            else:
+                okc = False
+    return b, fresh, okc and somes >= 1
 
 
 def rule_lookup(R):
@@ -227,6 +233,11 @@ def rule_owned(R):
         for x in walk(t):
             if x[0] == "agg" and x[2] and x[2].endswith("ResourceError"):
                 errs.add(x[3])
+    # error mappers that read as part of the function itself (`.map_err(|_| ..)` is a match arm after the normal form)
+    for bb, j, s_ in to.assigns():
+        rv = s_["rv"]
+        if bb in to.reachable and "agg" in rv and (rv["agg"].get("adt") or "").endswith("ResourceError"):
+            errs.add(rv["agg"]["variant"])
     R.ob("owned/error-kind", errs == {"BufferTooSmall"}, "the conversion errors are reported as BufferTooSmall (found %s)" % sorted(errs), where=to.span)
 
 
